@@ -286,6 +286,12 @@ func checkC02(r *core.Run) {
 		{"attribute-name-in-pieces", `<a data-x{{$x := 1}}/='` + S + `'>t</a>`, []string{"zz onmouseover=" + c02Marker + " zz"}, false},
 		{"attribute-name-in-pieces", `<iframe src{{$x := 1}}doc="` + S + `"></iframe>`, []string{c02Marker}, false},
 		{"attribute-name-in-pieces", `<a o{{$x := 1}}nclick="` + S + `">t</a>`, []string{c02Marker}, false},
+		// loop bodies whose re-entry context differs: through a callee, through {{continue}} / {{break}}
+		{"range-reentry-through-callee", `{{define "item"}}<li title="{{.}}{{end}}<ul>{{range $.L}}{{template "item" .}}{{else}}<li title="none{{end}}">x</li></ul>`, []string{"zz", "zz onmouseover=" + c02Marker + " zz"}, true},
+		{"continue-in-other-context", `{{range $.L}}<p>{{.}}</p><script>{{if eq . "t"}}{{continue}}{{end}}var r = 1;</script>{{end}}`, []string{"t", c02Marker}, true},
+		{"break-in-other-context", `{{range $.L}}<p>{{.}}</p><style>{{if eq . "t"}}{{break}}{{end}}p{}</style>{{end}}<b>` + S + `</b>`, []string{"t", c02Marker}, true},
+		{"continue-in-attribute", `{{range $.L}}<a onclick="{{if eq . "t"}}{{continue}}{{end}}x()">{{.}}</a>{{end}}`, []string{"t", c02Marker}, true},
+		{"range-body-adds-query", `<a href="/p/{{range $.L}}{{.}}?{{end}}">x</a>`, []string{"a", "b&c=d#e"}, true},
 		// helpers shared between a plain call site and one with conditional names / another enclosing element
 		{"helper-shared-with-conditional-element", `{{define "hp"}}{{.}}{{end}}<img src="{{template "hp" $.P0}}">{{if true}}<script{{else}}<img{{end}} src="{{template "hp" $.P1}}"></script>`, []string{"/i.png", c02Marker + ".js"}, false},
 		{"helper-shared-with-conditional-attribute", `{{define "hp"}}{{.}}{{end}}<a title="{{template "hp" $.P0}}">x</a><a {{if true}}href{{else}}title{{end}}="{{template "hp" $.P1}}">y</a>`, []string{"t", "javascript:alert(1)"}, false},
